@@ -91,6 +91,10 @@ def gen_case(run_seed: int, tier: str) -> dict:
             kind = "ok"
         elapsed_ms = r.choice([1, 10, 400, 999, 1000, 1001, 1500, 2500, 7000, 20000, 61000])
         a = {"kind": kind, "phase": r.choice(_PHASES), "elapsed_ms": elapsed_ms}
+        if kind == "die":
+            # how the dead worker looks to the master: killed by a signal, a non-zero status, or status 0 (os._exit(0)
+            # in the module under test, an interrupted worker that returns without sending)
+            a["exit_code"] = f.choice([137, 1, 0, 0, -9, -11])
         if layer == 2:
             a["nth"] = r.randrange(1, 6)
         jump = f.random()
@@ -184,6 +188,13 @@ def _make_fake_mp(script: _Script):
         def is_alive(self):
             return False
 
+        @property
+        def exitcode(self):
+            a = self.attempt
+            if a["kind"] in ("die", "unpicklable"):
+                return a.get("exit_code", 137)
+            return 0
+
         def terminate(self):
             pass
 
@@ -227,7 +238,7 @@ def _install_crash_trigger(attempt: dict):
     kind, phase, nth = attempt["kind"], attempt["phase"], attempt.get("nth", 1)
     if kind != "die":
         return
-    die = lambda: os._exit(137)  # noqa: E731
+    die = lambda: os._exit(attempt.get("exit_code", 137) & 0xFF)  # noqa: E731
     if phase == "start":
         die()
     if phase == "import":
